@@ -1,5 +1,6 @@
 import EV.Drv.Notif
 import EV.Drv.Index
+import EV.Drv.Merkle
 
 /-!
 `evdrv <suite>`: reads one operation per line on stdin, applies it to the Lean model of that
@@ -29,4 +30,5 @@ def main (args : List String) : IO UInt32 := do
   | ["notif"] => Drv.loop stdin stdout (Drv.NotifD.stepLine 0) EV.Notif.init; return 0
   | ["notif-orig"] => Drv.loop stdin stdout (Drv.NotifD.stepLine 1) EV.Notif.init; return 0
   | ["index"] => Drv.loop stdin stdout Drv.IndexD.stepLine {}; return 0
+  | ["merkle"] => Drv.loop stdin stdout Drv.MerkleD.stepLine Drv.MerkleD.init; return 0
   | _ => IO.eprintln "usage: evdrv <suite>"; return 2
